@@ -109,6 +109,30 @@ pub fn run_norm(args: &Args) -> (u64, u64) {
             norm_cmp(&mut tr, &variant, a);
         }
     }
+    // consecutive inputs that collide under weak fingerprints: anagrams (same length, sum and XOR), pairs equal under the
+    // polynomial hashes of base 31 and 33, one position moved up and another down by the same amount, a valid input
+    // followed by an invalid one of the same length - the result depends on every byte of THIS input only
+    {
+        let fams: Vec<Vec<&str>> = vec![
+            vec!["Aa", "BB", "Aa", "C#"],
+            vec!["AaAa", "BBBB", "AaBB", "BBAa"],
+            vec!["Ab", "BA", "ab", "bA"],
+            vec!["hunter2", "huntdrQ", "hunter2", "2retnuh", "hunter3", "hunter1"],
+            vec!["listen", "silent", "enlist", "tinsel", "LISTEN"],
+            vec!["AC", "BB", "CA", "B\u{1}", "BB"],
+            vec!["abcdefgh12345678", "12345678abcdefgh", "abcdefgh12345679", "abcdefgh1234567\u{7f}"],
+            vec!["Dhk", "A\u{e9}", "Dhk", "Dh\u{0}"],
+            vec!["zz", "{y", "y{", "zz"],
+        ];
+        for fam in &fams {
+            for a in fam {
+                norm_all(&mut tr, a);
+            }
+            for i in 0..fam.len() {
+                norm_cmp(&mut tr, fam[i], fam[(i + 1) % fam.len()]);
+            }
+        }
+    }
     // equality / order / hash / display between inputs with equal or different normalisations
     let valid: Vec<&String> = strings.iter().filter(|s| NormalizedString::new(s.as_str()).is_ok()).collect();
     let pairs = if thorough { 20000 } else { 2000 };
@@ -287,6 +311,31 @@ pub fn run_pin(args: &Args) -> (u64, u64) {
                 pin_verify_event(&mut tr, pin.wrapping_add(1), seed, &ss, &cs, &h);
                 pin_verify_event(&mut tr, *pin, seed.wrapping_add(1), &ss, &cs, &h);
                 pin_verify_event(&mut tr, *pin, seed, &cs, &ss, &h);
+                // the hash that belongs to a RELATED seed (bytes swapped, rotated, complemented, bits reversed), to the
+                // PIN's digits reversed, to the salts each reversed - presented under the real values
+                if k % 4 == 0 || thorough {
+                    for f in [u32::swap_bytes as fn(u32) -> u32, |x| x.rotate_left(8), |x| x.rotate_left(16), |x| !x, u32::reverse_bits] {
+                        if f(seed) != seed {
+                            if let Some(h2) = pin_event(&mut tr, *pin, f(seed), &ss, &cs) {
+                                pin_verify_event(&mut tr, *pin, seed, &ss, &cs, &h2);
+                            }
+                        }
+                    }
+                    let rev: u32 = pin.to_string().chars().rev().collect::<String>().parse().unwrap_or(*pin);
+                    if rev != *pin {
+                        if let Some(h2) = pin_event(&mut tr, rev, seed, &ss, &cs) {
+                            pin_verify_event(&mut tr, *pin, seed, &ss, &cs, &h2);
+                        }
+                    }
+                    let (mut rs, mut rc) = (ss, cs);
+                    rs.reverse();
+                    rc.reverse();
+                    if let Some(h2) = pin_event(&mut tr, *pin, seed, &rs, &rc) {
+                        if rs != ss || rc != cs {
+                            pin_verify_event(&mut tr, *pin, seed, &ss, &cs, &h2);
+                        }
+                    }
+                }
             }
             None => {
                 // invalid PINs never verify, whatever is presented
@@ -457,6 +506,40 @@ pub fn run_integrity(args: &Args) -> (u64, u64) {
         integ_event(&mut tr, "mac", &files, &s2, &k2);
         integ_event(&mut tr, "generic", &[data.clone()], &s2, &k2);
     }
+    // file contents are opaque bytes: byte-order marks, line endings, NULs, executable / archive signatures and
+    // padding at the START or the END of any single argument are hashed like every other byte
+    {
+        tr.reset("integrity-magic");
+        let magics: Vec<Vec<u8>> = vec![
+            vec![0xEF, 0xBB, 0xBF], vec![0xFE, 0xFF], vec![0xFF, 0xFE], vec![0xFF, 0xFE, 0, 0], vec![0], vec![0, 0, 0, 0], vec![0x0D, 0x0A], vec![0x0A],
+            b"MZ".to_vec(), vec![0x7F, b'E', b'L', b'F'], b"<?xml".to_vec(), b"PK\x03\x04".to_vec(), b"#!".to_vec(), b" ".to_vec(), vec![0x1A], vec![0xCA, 0xFE, 0xBA, 0xBE],
+            vec![0x80], vec![0xFF],
+        ];
+        let body: Vec<Vec<u8>> = (0..5).map(|i| (0..(20 + 3 * i)).map(|j| (j * 7 + i * 31 + 1) as u8).collect()).collect();
+        for (mi, m) in magics.iter().enumerate() {
+            for arg in 0..5usize {
+                if !thorough && (mi + arg) % 2 == 1 && mi > 2 {
+                    continue;
+                }
+                let mut pre = body.clone();
+                let mut v = m.clone();
+                v.extend_from_slice(&body[arg]);
+                pre[arg] = v;
+                let mut post = body.clone();
+                post[arg].extend_from_slice(m);
+                let mut only = body.clone();
+                only[arg] = m.clone();
+                for files in [&pre, &post, &only] {
+                    integ_event(&mut tr, "windows", files, &salt, &key);
+                    integ_event(&mut tr, "mac", files, &salt, &key);
+                }
+                if arg == 0 {
+                    integ_event(&mut tr, "generic", &[pre.concat()], &salt, &key);
+                    integ_event(&mut tr, "generic", &[pre[0].clone()], &salt, &key);
+                }
+            }
+        }
+    }
     // the functions are pure: the same buffers changed IN PLACE and checked again (same salt and key), a result
     // asked for twice, buffers of equal length at the same address - nothing may be remembered from an earlier call
     {
@@ -525,6 +608,39 @@ fn card_geometry_events(tr: &mut Tr, rng: &mut StdRng, d: u8, h: u8, w: u8, all_
                  "newLen": MatrixCard::new(d, h, w).data().len()}));
     let card = MatrixCard::from_data(d, h, w, data.clone())?;
     let printed: Vec<String> = card.to_printer().collect();
+    // the printer is an Iterator: every way of walking it yields the cells in order (skip, step_by, nth followed by
+    // the rest, count, last, size_hint), each on a fresh printer
+    {
+        let digits = |s: &String| -> Value { b(&s.bytes().map(|c| c.wrapping_sub(b'0')).collect::<Vec<u8>>()) };
+        let n = printed.len();
+        let ks: Vec<usize> = vec![0, 1, 2, n / 2, n.saturating_sub(1), n, n + 1];
+        for (i, k) in ks.iter().enumerate() {
+            let k = *k;
+            let r = guard(|| {
+                let a: Vec<String> = card.to_printer().skip(k).collect();
+                let st: Vec<String> = card.to_printer().step_by(k.max(1)).collect();
+                let mut it = card.to_printer();
+                let first = it.nth(k);
+                let mut rest: Vec<String> = first.into_iter().collect();
+                rest.extend(it);
+                let mut it2 = card.to_printer();
+                let _ = it2.next();
+                let hint = it2.size_hint();
+                (a, st, rest, card.to_printer().count(), card.to_printer().last(), hint)
+            });
+            match r {
+                Ok((a, st, rest, count, last, hint)) => tr.ev(json!({"ev": "CardPrint", "d": d, "h": h, "w": w, "data": b(&data), "k": k,
+                    "skip": a.iter().map(digits).collect::<Vec<Value>>(), "step": st.iter().map(digits).collect::<Vec<Value>>(),
+                    "nth": rest.iter().map(digits).collect::<Vec<Value>>(), "count": count,
+                    "last": last.iter().map(digits).collect::<Vec<Value>>(),
+                    "hintLo": hint.0, "hintHi": hint.1.map(|x| x as i64).unwrap_or(-1), "res": {"kind": "ok"}})),
+                Err(m) => tr.ev(json!({"ev": "CardPrint", "d": d, "h": h, "w": w, "data": b(&data), "k": k, "res": panic_res(&m)})),
+            }
+            if !all_cells && i >= 3 {
+                break;
+            }
+        }
+    }
     let coords: Vec<(u8, u8)> = if all_cells {
         (0..h).flat_map(|y| (0..w).map(move |x| (x, y))).collect()
     } else {
@@ -851,5 +967,10 @@ pub fn run_rng(args: &Args) -> (u64, u64) {
     let cards = if thorough { 16000 } else { 2560 };
     let (o, r, u, s) = batch(cards, threads, |_| MatrixCard::new(2, 10, 8).data().to_vec());
     draws_event(&mut tr, "MatrixDigits", "MatrixCard::new(2,10,8)", o, r, u, s, json!({}));
+    // other geometries (digit totals that are not multiples of 8, 16, 32): every position against every other
+    for (d, h, w) in [(3u8, 7u8, 5u8), (1, 1, 17), (1, 3, 11)] {
+        let (o, r, u, s) = batch(if thorough { 1024 } else { 256 }, threads, move |_| MatrixCard::new(d, h, w).data().to_vec());
+        draws_event(&mut tr, "MatrixDigits", &format!("MatrixCard::new({},{},{})", d, h, w), o, r, u, s, json!({}));
+    }
     tr.finish()
 }
